@@ -861,7 +861,7 @@ fn main() {
             }
         }
         rep.exhaustive = true;
-        let nr = args.cases(500, 8_000);
+        let nr = args.cases(500, 12_000);
         for i in 0..nr {
             let mut r = Rng::for_case(args.seed, i);
             let evs = random_case(&mut r);
